@@ -1,6 +1,7 @@
 package interpreter
 
 import (
+	"context"
 	"fmt"
 	"math"
 
@@ -70,7 +71,17 @@ func (self *Interpreter) expression(node ast.AnalyzedExpression) (*value.Value, 
 			return nil, i
 		}
 		// call the function and return the result
-		return self.callFunc(node.Range, *base, node.Arguments.List)
+		result, i := self.callFunc(node.Range, *base, node.Arguments.List)
+		if i != nil || !node.IsSpawn {
+			return result, i
+		}
+
+		// There are no threads here: the spawned function has run to its end, its handle gives out what it returned.
+		return value.NewValueObject(map[string]*value.Value{
+			"join": value.NewValueBuiltinFunction(func(_ value.Executor, _ *context.Context, _ errors.Span, _ ...value.Value) (*value.Value, *value.Interrupt) {
+				return result, nil
+			}),
+		}), nil
 	case ast.IndexExpressionKind:
 		node := node.(ast.AnalyzedIndexExpression)
 		return self.indexExpression(node)
